@@ -434,10 +434,12 @@ func init() {
 // values it prints, and the encoders of encoding/json and encoding/text invoke MarshalJSON / MarshalText.
 // A log line between a decode and an encode — in the application or in the codec itself — therefore runs
 // these methods on the message. For every such method of the packages in scope:
-//   (a) nothing reachable from the receiver is handed to a function outside the module that may change
-//       it (a buffer drained by Next, a list reordered by sort) — the walk of noConsumeRule;
-//   (b) the module's own code reached from the method does not store through, append onto, or copy into
-//       memory derived from the receiver (alias analysis with the receiver as the source).
+//
+//	(a) nothing reachable from the receiver is handed to a function outside the module that may change
+//	    it (a buffer drained by Next, a list reordered by sort) — the walk of noConsumeRule;
+//	(b) the module's own code reached from the method does not store through, append onto, or copy into
+//	    memory derived from the receiver (alias analysis with the receiver as the source).
+//
 // A violation means printing the value changes what it encodes to afterwards.
 var observerNames = map[string]bool{"String": true, "Error": true, "GoString": true, "Format": true, "MarshalJSON": true, "MarshalText": true}
 
